@@ -338,7 +338,7 @@ pub fn run(mut chk: Check) -> ! {
         "errors injected while a Writer is being dropped cannot be reported by design and are excluded from the exactness oracle".into(),
     ];
     chk.replay_files(dispatch);
-    let n = chk.scale(1500, 60_000);
+    let n = chk.scale(4000, 60_000);
     chk.campaign(CampaignCfg::new("scenario", n).len(0, 900), case_scenario);
     chk.require_label("scenario:split_write", "scenario:scenario", 50.0);
     chk.finish()
